@@ -15,7 +15,10 @@ S, A, SEEN, CLEAN, FIN, PAFTER, JOIN = 1000, 2000, 3000, 4000, 5000, 6000, 7000
 def seqs(ops, rest):
     s = rest
     for op in reversed(ops):
-        s = ["do", op, s]
+        if isinstance(op, tuple) and op[0] == "guarded":
+            s = ["try", ["do", ["awaitfut", op[1]], ["end"]], "exception", ["do", ["log", op[2]], ["end"]], ["end"], s]
+        else:
+            s = ["do", op, s]
     return s
 
 
@@ -23,13 +26,16 @@ def child(rng, c, cancel_shapes=False):
     """log S; try: prefix; await...; log A; ...; return/raise  except CancelledError: log SEEN; [await; log CLEAN];
        (re-raise | suppress)  finally: log FIN"""
     ops = []
-    n = rng.randint(0, 3)
+    n = rng.randint(0, 4)
     for j in range(n):
         r = rng.random()
-        if r < 0.3:
+        if r < 0.25:
             ops.append(["sleep0"])
-        elif r < 0.75:
+        elif r < 0.6:
             ops.append(["awaitfut", rng.randrange(2)])
+        elif r < 0.8:
+            # await a future, handle its failure, carry on (and suspend again later)
+            ops.append(("guarded", rng.randrange(2), A + c * 10 + j))
         else:
             ops.append(["log", A + c * 10 + j])
     tail_kind = rng.random()
